@@ -103,13 +103,18 @@ TIE_FUNCS = {
                            "Repr.is_empty_body", "Repr.as_bytes_body", "Repr.as_str_body", "Repr.as_slice_mut_body",
                            "Repr.as_str_mut_body", "Repr.from_char", "Repr.from_bool"],
     "LSProofs.Gen.Retain": ["Repr.retain", "Repr.ensure_modifiable", "Repr.set_len"],
+    "LSProofs.Gen.IterGlue": ["LeanString.extend_string", "LeanString.extend_box", "LeanString.extend_cow", "LeanString.extend_ls",
+                              "LeanString.extend_char_ref", "LeanString.from_iter_string", "LeanString.from_iter_box",
+                              "LeanString.from_iter_cow", "LeanString.from_iter_ls", "LeanString.from_iter_char_ref",
+                              "LeanString.from_utf16_lossy", "LeanString.from_iter_char", "LeanString.extend_char",
+                              "LeanString.push_str", "LeanString.new", "LeanString.drop"],
     "LSProofs.Props.C01G": [],
     "LSProofs.Gen.Good": ["Repr.push_str", "Repr.insert_str", "Repr.pop", "Repr.remove", "Repr.reserve", "Repr.ensure_modifiable",
                           "Repr.shrink_to", "Repr.set_len", "Repr.truncate_unchecked", "Repr.replace_inner", "Repr.from_str",
                           "Repr.make_shallow_clone"],
 }
 TIES = {
-    "C01": T("Ctor", "Readers", "Release", "SetLen", "Reserve", "Ensure", "Shrink", "Clone", "Clear", "PushStr", "InsertStr", "PopRemove", "Good", "Wrappers", "Panicking", "Extend", "Collect", "Decode", "CloneDrop", "StepG", "HeapBuf", "Bytes", "Retain") + ["LSProofs.Props.C01G"],
+    "C01": T("Ctor", "Readers", "Release", "SetLen", "Reserve", "Ensure", "Shrink", "Clone", "Clear", "PushStr", "InsertStr", "PopRemove", "Good", "Wrappers", "Panicking", "Extend", "Collect", "Decode", "CloneDrop", "StepG", "HeapBuf", "Bytes", "Retain", "IterGlue") + ["LSProofs.Props.C01G"],
     "C02": T("Reserve", "Ensure", "Shrink", "Clear", "SetLen", "StepG", "HeapBuf"),
     "C03": T("Release", "Clone", "CloneDrop", "Collect", "Reserve", "Ensure", "Shrink", "StepG", "HeapBuf"),
     "C05": T("Reserve", "Ensure", "Shrink", "SetLen", "Ctor", "PushStr", "InsertStr", "PopRemove", "Wrappers", "Panicking", "Extend", "Collect", "HeapBuf"),
@@ -121,8 +126,8 @@ TIES = {
     "C11": T("Readers", "Ctor", "Reserve", "PushStr", "InsertStr", "Wrappers", "HeapBuf"),
     "C12": T("Reserve", "HeapBuf"),
     "C13": T("Shrink", "HeapBuf"),
-    "C16": T("Decode"),
-    "C18": T("Extend", "Collect", "Retain"),
+    "C16": T("Decode", "IterGlue"),
+    "C18": T("Extend", "Collect", "Retain", "IterGlue"),
     "C20": T("Kind", "Bytes"),
 }
 
